@@ -8,10 +8,10 @@ import (
 	"net"
 	"time"
 
-	"github.com/lni/vfs"
 	"github.com/lni/dragonboat/v4"
 	"github.com/lni/dragonboat/v4/config"
 	dbsm "github.com/lni/dragonboat/v4/statemachine"
+	"github.com/lni/vfs"
 )
 
 // NewNodeHost starts a real single-node NodeHost on an in-memory file system.
@@ -38,10 +38,14 @@ func StartShard(nh *dragonboat.NodeHost, id uint64, firstIndex uint64, sm interf
 	var err error
 	switch m := sm.(type) {
 	case dbsm.IConcurrentStateMachine:
-		err = nh.StartConcurrentReplica(members, false, func(uint64, uint64) dbsm.IConcurrentStateMachine { return m }, cfg)
+		err = nh.StartConcurrentReplica(members, false, func(uint64, uint64) dbsm.IConcurrentStateMachine {
+			return &offsetCSM{IConcurrentStateMachine: m, first: firstIndex}
+		}, cfg)
 	case dbsm.IOnDiskStateMachine:
 		// the harness hands over an already opened state machine
-		err = nh.StartOnDiskReplica(members, false, func(uint64, uint64) dbsm.IOnDiskStateMachine { return openedSM{m} }, cfg)
+		err = nh.StartOnDiskReplica(members, false, func(uint64, uint64) dbsm.IOnDiskStateMachine {
+			return &openedSM{IOnDiskStateMachine: m, first: firstIndex}
+		}, cfg)
 	default:
 		panic(fmt.Sprintf("StartShard: unsupported state machine %T", sm))
 	}
@@ -68,6 +72,51 @@ func YieldAtStore(nh *dragonboat.NodeHost, on bool) {}
 
 // openedSM adapts a state machine the harness has already opened: dragonboat's
 // Open call must not open it a second time.
-type openedSM struct{ dbsm.IOnDiskStateMachine }
+//
+// Both adapters also make the log indices the state machine sees start at the
+// harness's (arbitrary) first index, as in model M2: the first proposal the
+// real Raft log delivers is presented as index `first`, later ones follow
+// consecutively.
+type openedSM struct {
+	dbsm.IOnDiskStateMachine
+	first uint64
+	delta uint64
+	seen  bool
+}
 
-func (o openedSM) Open(<-chan struct{}) (uint64, error) { return 0, nil }
+func (o *openedSM) Open(<-chan struct{}) (uint64, error) { return 0, nil }
+
+func (o *openedSM) Update(es []dbsm.Entry) ([]dbsm.Entry, error) {
+	if len(es) > 0 && !o.seen {
+		o.seen, o.delta = true, o.first-es[0].Index
+	}
+	for i := range es {
+		es[i].Index += o.delta
+	}
+	out, err := o.IOnDiskStateMachine.Update(es)
+	for i := range out {
+		out[i].Index -= o.delta
+	}
+	return out, err
+}
+
+type offsetCSM struct {
+	dbsm.IConcurrentStateMachine
+	first uint64
+	delta uint64
+	seen  bool
+}
+
+func (o *offsetCSM) Update(es []dbsm.Entry) ([]dbsm.Entry, error) {
+	if len(es) > 0 && !o.seen {
+		o.seen, o.delta = true, o.first-es[0].Index
+	}
+	for i := range es {
+		es[i].Index += o.delta
+	}
+	out, err := o.IConcurrentStateMachine.Update(es)
+	for i := range out {
+		out[i].Index -= o.delta
+	}
+	return out, err
+}
